@@ -609,9 +609,9 @@ func split(g *graph, r *lib.Rng, v *lib.Val, budget *int, isRoot bool) *lib.Val 
 	if *budget <= 0 {
 		return v
 	}
-	pct := 6
+	pct := 12
 	if v.Kind == lib.KList || v.Kind == lib.KMap {
-		pct = 30
+		pct = 60
 	}
 	if isRoot {
 		pct = 4
@@ -689,8 +689,81 @@ func freshKey(r *lib.Rng, m *lib.Val) string {
 
 var oddIdx = []string{"01", "+1", "-0", "-1", "-5", "00", "+0", "1", "0", "9223372036854775807", "9223372036854775808", "-9223372036854775808", " 1", "1 ", "0x1", "1e0", ""}
 
+// linkPaths lists the paths (in the expanded graph) at which a loadable link sits.
+func linkPaths(g *graph, v *lib.Val, prefix []string, depth int, out *[][]string) {
+	switch v.Kind {
+	case lib.KLink:
+		if depth > 6 {
+			return
+		}
+		n, err := g.load(v.S)
+		if err != nil {
+			return
+		}
+		if len(prefix) > 0 {
+			*out = append(*out, append([]string(nil), prefix...))
+		}
+		if w := valOf(n); w != nil {
+			linkPaths(g, w, prefix, depth+1, out)
+		}
+	case lib.KList:
+		for i, x := range v.L {
+			linkPaths(g, x, append(prefix, strconv.Itoa(i)), depth, out)
+		}
+	case lib.KMap:
+		for _, e := range v.M {
+			linkPaths(g, e.V, append(prefix, e.K), depth, out)
+		}
+	}
+}
+
+func at(v *lib.Val, p []string) *lib.Val {
+	for _, s := range p {
+		switch v.Kind {
+		case lib.KList:
+			i, err := strconv.Atoi(s)
+			if err != nil || i < 0 || i >= len(v.L) {
+				return v
+			}
+			v = v.L[i]
+		case lib.KMap:
+			found := false
+			for _, e := range v.M {
+				if e.K == s {
+					v, found = e.V, true
+					break
+				}
+			}
+			if !found {
+				return v
+			}
+		default:
+			return v
+		}
+	}
+	return v
+}
+
 func genStep(g *graph, r *lib.Rng, cur *lib.Val) step {
+	st := genStep0(g, r, cur)
+	return st
+}
+
+func genStep0(g *graph, r *lib.Rng, cur *lib.Val) step {
 	ex := g.expand(cur, 0)
+	var base []string
+	var lps [][]string
+	linkPaths(g, cur, nil, 0, &lps)
+	if len(lps) > 0 && r.Intn(100) < 45 { // aim below a link
+		base = lps[r.Intn(len(lps))]
+		ex = at(ex, base)
+	}
+	st := genStepIn(g, r, ex)
+	st.path = append(append([]string(nil), base...), st.path...)
+	return st
+}
+
+func genStepIn(g *graph, r *lib.Rng, ex *lib.Val) step {
 	var p []string
 	switch r.Intn(14) {
 	case 0, 1, 2: // existing position
@@ -759,6 +832,16 @@ func genStep(g *graph, r *lib.Rng, cur *lib.Val) step {
 	default: // existing position, one more random segment
 		q, _, _ := descend(r, ex, 0, true)
 		p = append(q, lib.StrPool[r.Intn(len(lib.StrPool))])
+	}
+	if len(p) == 0 && r.Intn(8) != 0 { // the root itself is rarely the interesting target
+		p, _, _ = descend(r, ex, 0, true)
+		if len(p) == 0 && (ex.Kind == lib.KMap || ex.Kind == lib.KList) {
+			if ex.Kind == lib.KMap {
+				p = []string{freshKey(r, ex)}
+			} else {
+				p = []string{"-"}
+			}
+		}
 	}
 	var fn string
 	switch x := r.Intn(20); {
@@ -992,8 +1075,22 @@ func main() {
 		if v.Kind == lib.KBytes {
 			v = lib.Str("r" + lib.Hex(v.S)) // a bytes root runs into the streamBytes defect of C11; not this property's business
 		}
-		budget := r.Intn(4)
+		budget := []int{0, 1, 1, 2, 2, 3, 3, 4}[r.Intn(8)]
 		root := split(g, r, v, &budget, true)
+		if len(g.store.Bag) == 0 && budget > 0 && r.Intn(10) < 6 { // make sure most graphs have a link to cross
+			switch {
+			case root.Kind == lib.KList && len(root.L) > 0:
+				i := r.Intn(len(root.L))
+				if c, err := g.put(root.L[i]); err == nil {
+					root.L[i] = lib.Link(c)
+				}
+			case root.Kind == lib.KMap && len(root.M) > 0:
+				i := r.Intn(len(root.M))
+				if c, err := g.put(root.M[i].V); err == nil {
+					root.M[i].V = lib.Link(c)
+				}
+			}
+		}
 		blocks := g.listing(nil)
 		if i%4 == 3 {
 			keys := keysOf(g.expand(root, 0))
@@ -1003,7 +1100,7 @@ func main() {
 			continue
 		}
 		// plan the steps against a scratch copy of the graph so that the recorded run starts clean
-		ns := 1 + r.Intn(3)
+		ns := 1 + r.Intn(4)
 		if r.Intn(4) == 0 {
 			ns = 4 + r.Intn(2)
 		}
@@ -1017,9 +1114,8 @@ func main() {
 			continue
 		}
 		cur := root
-		for j := 0; j < ns; j++ {
+		for j, tries := 0, 0; j < ns && tries < 12; tries++ {
 			st := genStep(scratch, r, cur)
-			steps = append(steps, st)
 			var log []string
 			fn, err := transformFn(st.fn, &log)
 			if err != nil {
@@ -1032,9 +1128,19 @@ func main() {
 				return e
 			})
 			if err != nil || strings.Contains(lib.Dump(res), "!") {
-				break
+				// a failing step ends the run: keep it only sometimes, so that longer runs are common
+				if r.Intn(5) < 2 || tries == 11 {
+					steps = append(steps, st)
+					break
+				}
+				continue
 			}
+			steps = append(steps, st)
+			j++
 			curNode, cur = res, valOf(res)
+		}
+		if len(steps) == 0 {
+			steps = append(steps, genStep(scratch, r, cur))
 		}
 		emitFT(out, fmt.Sprintf("g%d", i), g, blocks, root, steps)
 	}
